@@ -48,7 +48,7 @@ Proof.
       change (TP p :: rest) with ([TP p] ++ rest). apply I_seq; auto using I_prim.
     + (* TDip: with or without a join behind it, the current engine keeps the dip *)
       assert (G : obind (cinv true fuel f) (fun gi => obind (cinv true fuel rest) (fun r => Some (r ++ [TDip gi]))) = Some g).
-      { destruct rest as [|y rest']; auto. destruct (is_joinb y); auto. destruct (mono1 f); auto; discriminate. }
+      { destruct rest as [|y rest']; auto. destruct (is_joinb y); auto. }
       clear H. rename G into H.
       destruct (cinv true fuel f) as [gi|] eqn:Eg; [|discriminate]. cbn [obind] in H.
       destruct (cinv true fuel rest) as [r|] eqn:Er; [|discriminate]. cbn [obind] in H. inversion H; subst.
@@ -588,4 +588,69 @@ Theorem un_join_dip_witness_current :
 Proof.
   split; [vm_compute; reflexivity|].
   exists ([Arr TNum [2%nat] [ENum 3; ENum 4]], []). split; vm_compute; reflexivity.
+Qed.
+
+(* ------------------------------------------------------------------ un of a join: the engine at 8f54207 *)
+
+(** Records about the model of the engine AT commit 8f54207 ([inv_8f5]); both inputs are replayed on the
+    implementation on every run (harness/src/bin/c03.rs DIRECTED regression:nonchain / segment-order)
+    and the model reproduces what that engine returned for them. *)
+Definition nonchain_before : list tn := [TDip [TP P_Join; TP P_Neg]].              (* ⊙(¯⊂), then ⊂ *)
+Definition nonchain_s : st := ([num 1; num 2; Arr TNum [2%nat] [ENum 3; ENum 4]], []).
+Definition segorder_before : list tn := [TP P_Neg; TDip [TP P_Neg]; TPush 1; TP P_Add].   (* ¯ ⊙¯ +1, then ⊂ *)
+Definition segorder_s : st := ([num 3; Arr TNum [1%nat] [ENum 4]], []).
+
+(** a dipped function that contains a join was flattened: `°(⊂⊙(¯⊂))` was `2 UnJoinShape ¯ UnJoin`,
+    which turns [1 ¯2 ¯3 ¯4] into ¯1 [2] [¯3 ¯4] instead of 1 2 [3 4] *)
+Theorem un_join_nonchain_refuted_pre : exists g s',
+  inv_8f5 nonchain_before = Some g /\ st_okb nonchain_s = true /\
+  trun (nonchain_before ++ [TP P_Join]) nonchain_s = Ok s' /\
+  trun g s' = Ok ([num (-1); Arr TNum [1%nat] [ENum 2]; Arr TNum [2%nat] [ENum (-3); ENum (-4)]], []) /\
+  trun g s' <> Ok nonchain_s.
+Proof.
+  exists [TPush 2; TP P_UnJoinShape; TP P_Neg; TP P_UnJoin],
+         ([Arr TNum [4%nat] [ENum 1; ENum (-2); ENum (-3); ENum (-4)]], []).
+  split; [vm_compute; reflexivity|]. split; [vm_compute; reflexivity|]. split; [vm_compute; reflexivity|].
+  split; [vm_compute; reflexivity|]. vm_compute. discriminate.
+Qed.
+
+(** the inverses of the pieces were applied in forward order: `°(⊂+1⊙¯¯)` was `UnJoin ¯ ⊙¯ -1`,
+    which turns [¯2 ¯4] into 1 [4] instead of 3 [4] *)
+Theorem un_join_segment_order_refuted_pre : exists g s',
+  inv_8f5 segorder_before = Some g /\ st_okb segorder_s = true /\
+  trun (segorder_before ++ [TP P_Join]) segorder_s = Ok s' /\
+  trun g s' = Ok ([num 1; Arr TNum [1%nat] [ENum 4]], []) /\ trun g s' <> Ok segorder_s.
+Proof.
+  exists [TP P_UnJoin; TP P_Neg; TDip [TP P_Neg]; TPush 1; TP P_Sub],
+         ([Arr TNum [2%nat] [ENum (-2); ENum (-4)]], []).
+  split; [vm_compute; reflexivity|]. split; [vm_compute; reflexivity|]. split; [vm_compute; reflexivity|].
+  split; [vm_compute; reflexivity|]. vm_compute. discriminate.
+Qed.
+
+(** The CURRENT rule (2e21ff6 + 6d27c00: every dipped piece inverted as a dip, the pieces' inverses in
+    reverse order) is the general rule of sequences, and it is an inverse: whatever modelled function
+    [before] runs in front of the join - dipped pieces that contain joins, pieces on both sides of a
+    dip, nested dips, both, bracket - `UnJoin` followed by the engine's inverse of [before] undoes
+    `before ⊂` on every admissible state on which it succeeds *)
+Theorem un_join_current : forall fuel before bi, cinv true fuel before = Some bi ->
+  law (before ++ [TP P_Join]) (TP P_UnJoin :: bi).
+Proof.
+  intros fuel before bi H. apply inv_left.
+  change (TP P_UnJoin :: bi) with ([TP P_UnJoin] ++ bi).
+  apply I_seq; [eapply cinv_sound; eauto | apply I_prim; reflexivity].
+Qed.
+
+(** ... it is what the current model derives for the two former counterexamples (and what the real
+    compiler emits: validated by the V tie on every run), and it restores them *)
+Theorem un_join_witnesses_current :
+  cinv true 30 (nonchain_before ++ [TP P_Join]) = Some [TP P_UnJoin; TDip [TP P_Neg; TP P_UnJoin]] /\
+  cinv true 30 (segorder_before ++ [TP P_Join]) = Some [TP P_UnJoin; TPush 1; TP P_Sub; TDip [TP P_Neg]; TP P_Neg] /\
+  (exists s', trun (nonchain_before ++ [TP P_Join]) nonchain_s = Ok s' /\
+              trun [TP P_UnJoin; TDip [TP P_Neg; TP P_UnJoin]] s' = Ok nonchain_s) /\
+  (exists s', trun (segorder_before ++ [TP P_Join]) segorder_s = Ok s' /\
+              trun [TP P_UnJoin; TPush 1; TP P_Sub; TDip [TP P_Neg]; TP P_Neg] s' = Ok segorder_s).
+Proof.
+  split; [vm_compute; reflexivity|]. split; [vm_compute; reflexivity|]. split.
+  - exists ([Arr TNum [4%nat] [ENum 1; ENum (-2); ENum (-3); ENum (-4)]], []). split; vm_compute; reflexivity.
+  - exists ([Arr TNum [2%nat] [ENum (-2); ENum (-4)]], []). split; vm_compute; reflexivity.
 Qed.
